@@ -39,6 +39,8 @@ def tail_signature(facts, fn, engines):
         tail = []
         for e in evs[idx[-1] + 1:]:
             if e[0] == 'call':
+                if e[1].startswith('cache::'):
+                    continue        # cache bookkeeping exists in the jit build only and owns nothing but the cache (C03)
                 tail.append('call ' + e[1].split('::')[-1])
             elif e[0] == 'store' and e[1] == 'core':
                 tail.append('store %s := %s' % ('.'.join(str(x[1]) for x in e[2]), normalise(fmt(e[3]))))
